@@ -32,8 +32,10 @@ class PosMotor(_Base):
 
 
 class LocMotor(_Base):
+    rb_offset = 0.0
+
     def locate(self):
-        return {"setpoint": self._pos, "readback": self._pos}
+        return {"setpoint": self._pos, "readback": self._pos + self.rb_offset}
 
 
 class ReadMotor(_Base):
@@ -55,8 +57,9 @@ def make(P):
 
     L = P["L"]
 
-    def h(i0: Real, i1: Real, i2: Real, o1: Real, o2: Real, o3: Real, p1: int, p2: int, p3: int, form: int, subset: int, fail_at: int, stop: bool) -> str:
+    def h(i0: Real, i1: Real, i2: Real, rb: Real, o1: Real, o2: Real, o3: Real, p1: int, p2: int, p3: int, form: int, subset: int, fail_at: int, stop: bool) -> str:
         devs = [PosMotor("m_pos", i0), LocMotor("m_loc", i1), ReadMotor("m_read", i2)]
+        devs[1].rb_offset = rb  # readback differs from the setpoint by an arbitrary amount
         init = {devs[0]: i0, devs[1]: i1, devs[2]: i2}
         offs = [o1, o2, o3][:L]
         form = fork_int(form, 0, 4)  # 0 relative, 1 reset, 2 reset(relative) as rel_scan, 3 mvr, 4 rel_set
@@ -183,6 +186,122 @@ def make(P):
     return h
 
 
+class PseudoParent(_Base):
+    RealPosition = tuple
+
+    def __init__(self, name):
+        self.name = name
+        self.pseudo_positioners = []
+        self.real_positioners = []
+
+    @property
+    def position(self):
+        return tuple(c._pos for c in self.pseudo_positioners)
+
+
+class PseudoAxis(PosMotor):
+    def __init__(self, name, pos, parent):
+        super().__init__(name, pos)
+        self.parent = parent
+        parent.pseudo_positioners.append(self)
+
+
+def make_pseudo(P):
+    import bluesky.preprocessors as bpp
+    from bluesky.utils import Msg
+
+    def h(pa: Real, pb: Real, oa: Real, ob: Real, order: int, form: int, subset: int, fail_at: int) -> str:
+        par = PseudoParent("pp")
+        a, b = PseudoAxis("pp_a", pa, par), PseudoAxis("pp_b", pb, par)
+        init = {a: pa, b: pb}
+        order = fork_int(order, 0, 3)  # a,b / b,a / a,a / a only
+        steps = [[(a, oa), (b, ob)], [(b, ob), (a, oa)], [(a, oa), (a, ob)], [(a, oa)]][order]
+        form = fork_int(form, 0, 2)  # relative / reset / reset(relative)
+        subset = fork_int(subset, 0, 2)  # [a, b] / [a] / None
+        sub = [[a, b], [a], None][subset]
+        only_shard(order * 9 + form * 3 + subset, P)
+        st = {"j": 0, "plan_end": None}
+
+        def plan():
+            try:
+                for d, off in steps:
+                    yield Msg("set", d, off, group="g")
+                yield Msg("wait", None, group="g")
+            finally:
+                st["plan_end"] = st["j"]
+
+        if form == 0:
+            gen = bpp.relative_set_wrapper(plan(), sub)
+        elif form == 1:
+            gen = bpp.reset_positions_wrapper(plan(), sub)
+        else:
+            gen = bpp.reset_positions_wrapper(bpp.relative_set_wrapper(plan(), sub), sub)
+        fail = fork_int(fail_at, 0, 8)
+        if fail == 8:
+            fail = 10**6
+        sets = []
+        try:
+            m = gen.send(None)
+            while True:
+                j = st["j"]
+                st["j"] = j + 1
+                if j == fail:
+                    goal("failure-injected")
+                    m = gen.throw(genlab.Boom("device", j))
+                    continue
+                if m.command == "set":
+                    sets.append((m.obj, m.args[0], j))
+                    if m.obj is par:
+                        for c, v in zip(par.pseudo_positioners, m.args[0]):
+                            c._pos = v
+                    else:
+                        m.obj._pos = m.args[0]
+                m = gen.send(None)
+        except StopIteration:
+            pass
+        except genlab.Boom:
+            pass
+        who = ("relative_set_wrapper", "reset_positions_wrapper", "reset(relative)")[form] + "[pseudo]"
+        tags = []
+        pe = st["plan_end"] if st["plan_end"] is not None else 10**6
+        body = [x for x in sets if x[2] < pe]
+        tail = [x for x in sets if x[2] >= pe]
+        # when devices is None the wrapper treats every set device as eligible; with a list, only listed axes and their coupled siblings
+        coupled = sub is not None
+        eligible = [a, b] if (sub is None or coupled) else []
+        if form in (0, 2):
+            for n, (d, target, _) in enumerate(body):
+                off = steps[n][1]
+                goal("relative-set")
+                if target != init[d] + off:
+                    tags.append(f"{who}:set-target-is-not-initial-plus-offset")
+        if form in (1, 2) and st["plan_end"] is not None and not (fail < 10**6 and fail >= pe):
+            moved = []
+            for d, _, _ in body:
+                if d not in moved:
+                    moved.append(d)
+            # final commanded position of every moved axis must be its initial position (directly or through the parent)
+            final = {}
+            for d, v, _ in tail:
+                goal("reset-set")
+                if d is par:
+                    for c, x in zip(par.pseudo_positioners, v):
+                        final[c] = x
+                else:
+                    final[d] = v
+            for d in moved:
+                if d not in final:
+                    tags.append(f"{who}:moved-axis-not-commanded-back")
+                elif final[d] != init[d]:
+                    tags.append(f"{who}:reset-target-is-not-initial-position")
+            for d, x in final.items():
+                if x != init[d]:
+                    tags.append(f"{who}:reset-target-is-not-initial-position")
+        return ";".join(sorted(set(tags)))
+
+    return h
+
+
 def _first_reset_index(steps, stashed, eligible):
     """Lower bound on the message index of the first reset message: all plan messages come before it."""
     n = 0
@@ -208,3 +327,9 @@ register(Harness("c24_relative", "C24", make,
                  "[m_pos, m_loc]}; the driver raises a device error or RequestStop at message index fail_at in [0,S)",
                  out_of_bound="pseudo-positioners (coupled axes); float rounding; rel_* scans themselves (C25 harness covers their trajectories)",
                  stubs=["three fake movables: .position attribute / Locatable / hinted read", "number text is opaque"], require_exhaustive=True))
+register(Harness("c24_pseudo", "C24", make_pseudo, {"quick": dict(shards=12, budget_s=200, per_path_s=20)},
+                 goals=["relative-set", "reset-set", "failure-injected"], functions=_fns, float_model="real", opaque_text=True,
+                 symbolic="a pseudo-positioner with two coupled axes at arbitrary real positions; two separate sets (a,b / b,a / a,a / a) with arbitrary real offsets; "
+                 "wrapper form in {relative, reset, reset(relative)}; devices in {[a,b], [a], None}; device error at message index fail_at in [0,8)",
+                 out_of_bound="real (non-pseudo) axes of a pseudo-positioner; more than two coupled axes", stubs=["duck-typed fake PseudoPositioner (RealPosition attribute, pseudo_positioners)"],
+                 require_exhaustive=True))
